@@ -12,7 +12,11 @@ RULE = ("case 'seq' = (matrix with 1..5 frames, 0..4 signals each, sender/receiv
         "RELATED names built from two stems (one name contained in another as prefix / suffix / infix, names that differ only in letter "
         "case, doubled and shortened names), takes the new names of renames from the same family (a case variant, an extension or a "
         "shortening of a name in use - still not in use as an exact name) and derives the deletion patterns from the names. "
-        "case 'glob' = (pattern, name) for the glob matcher itself, also on the related names. Non-trivial = distinct sequence in which at least one "
+        "A third stream of 'seq' cases draws the ECU names from a pool of LONG names (up to 300 characters) that fall into two or three groups; "
+        "the names of a group agree in their first L characters, in their last L characters or in both (L from 7 to 256, around the usual "
+        "identifier limits 8 / 16 / 32 / 64 / 128 / 255), one name of a group may be exactly the common part; new names of renames are cut, "
+        "extended or re-tailed names in use (not in use as an exact name), deletion patterns are derived from the names. "
+        "case 'glob' = (pattern, name) for the glob matcher itself, also on the related and the long names. Non-trivial = distinct sequence in which at least one "
         "operation changed the matrix.")
 PARTIAL = ["Ecu objects are modelled by their names (comment and attributes of an ECU play no role in reference maintenance)"]
 ASSUMPTIONS = ["reference lists are duplicate-free and frame receiver lists up to date initially (the state the readers produce)",
@@ -67,6 +71,60 @@ def derived_name(rng, name):
                        "_" + name, name + name, name[:-1], name[1:], name[:1], name[:len(name) // 2 + 1], "My" + name])
 
 
+WORDS = ["BodyControlModule", "FrontLeftDoor", "Gateway", "PowertrainDomainController", "RearAxleSteering", "Diag", "HeadUnit", "Battery",
+         "ManagementSystem", "Cluster", "ADAS", "ParkAssist", "x", "ECU", "Node01", "Zone"]
+LIMITS = [7, 8, 9, 15, 16, 17, 24, 31, 32, 33, 40, 48, 63, 64, 65, 100, 127, 128, 129, 255, 256]
+TAILS = ["Master", "Slave", "Diag", "A", "B", "1", "2", "_", "a", "Left", "Right", "Master2", "Slave_Backup_Unit", "0", "Z"]
+
+
+def common_part(rng, L):
+    """an identifier of exactly L characters made of words"""
+    s = ""
+    while len(s) < L:
+        s += rng.choice(WORDS) + rng.choice(["_", "_", "", "0"])
+    s = s[:L]
+    if s[0].isdigit():
+        s = "K" + s[1:]
+    return s
+
+
+def long_group(rng, n):
+    """n names that agree in their first L characters, in their last L characters or in both and differ right next to the common part;
+    one of them may be exactly the common part"""
+    L = rng.choice(LIMITS + [31, 32, 33, 64])
+    shape = rng.choice(["prefix", "prefix", "suffix", "both"])
+    c = common_part(rng, L)
+    tails = rng.sample(TAILS, min(n, len(TAILS)))
+    if rng.random() < 0.3:
+        tails[0] = ""
+    if shape == "prefix":
+        return [c + t for t in tails]
+    if shape == "suffix":
+        return [(t + c) if not (t + c)[0].isdigit() else ("K" + t + c) for t in tails]
+    d = common_part(rng, rng.choice(LIMITS))
+    return [c + t + d for t in tails]
+
+
+def long_pool(rng):
+    """10 names in two or three groups of long names with a common part, plus short names"""
+    k = rng.choice([2, 2, 3])
+    sizes = {2: [rng.choice([4, 5]), rng.choice([3, 4])], 3: [3, 3, 3]}[k]
+    pool = []
+    for n in sizes:
+        pool += long_group(rng, n)
+    pool = dedup(pool)
+    pool += [x for x in rng.sample(POOL, len(POOL)) if x not in pool][:max(0, 10 - len(pool))]
+    rng.shuffle(pool)
+    return pool
+
+
+def long_derived(rng, name):
+    """a name that agrees with `name` in a leading or trailing part: cut at / next to a usual limit, extended, other tail"""
+    c = rng.choice([x for x in LIMITS if x < len(name)] or [max(1, len(name) - 1)])
+    return rng.choice([name[:c], name[:c] + rng.choice(TAILS), name[:-1], name + rng.choice(TAILS), name[-c:] if not name[-c:][0].isdigit() else "K" + name[-c:],
+                       rng.choice(TAILS) + name[-c:], name[:c] + "X" + name[c + 1:], name[:len(name) - len(name) // 4] + rng.choice(TAILS)])
+
+
 def gen_matrix(rng, POOL=POOL):
     listed = [e for e in POOL if rng.random() < 0.6]
     rng.shuffle(listed)
@@ -104,10 +162,11 @@ def gen_ops(rng, m, n):
             if related and rng.random() < 0.8:
                 # a new name of the same family as a name in use (of the renamed ECU or of another one); "not yet in use"
                 # is meant literally: no ECU and no reference has exactly this name
-                new = derived_name(rng, rng.choice(sorted(names_in_use)))
+                src = rng.choice(sorted(names_in_use))
+                new = long_derived(rng, src) if (m.get("kind") == "long" and rng.random() < 0.8) else derived_name(rng, src)
                 if not new or new in names_in_use:
                     new = None
-            if new is None:
+            while new is None or new in names_in_use:
                 fresh += 1
                 new = "N%d" % fresh
             names_in_use.add(new)
@@ -146,6 +205,16 @@ def gen(rng, tier, shard, nshards):
     for _ in range(total // 8):
         pool = related_pool(rng)
         yield {"op": "glob", "c": [rng.choice(related_patterns(rng, pool)), rng.choice(pool + [derived_name(rng, rng.choice(pool))])]}
+    # long names that agree in a leading / trailing part of 7..256 characters (names are compared as a whole, never by a part)
+    for _ in range(total // 3):
+        pool = long_pool(rng)
+        m = gen_matrix(rng, pool)
+        m["pool"] = pool
+        m["kind"] = "long"
+        yield {"op": "seq", "c": {"m": m, "ops": gen_ops(rng, m, rng.randint(1, maxlen))}}
+    for _ in range(total // 16):
+        pool = long_pool(rng)
+        yield {"op": "glob", "c": [rng.choice(related_patterns(rng, pool)), rng.choice(pool + [long_derived(rng, rng.choice(pool))])]}
 
 
 def neighbours(case, rng, shard, nshards):
@@ -218,7 +287,10 @@ def features(case, impl):
     if case["op"] == "seq":
         m = case["c"]["m"]
         prev = m
-        yield "names=" + ("related (containment / letter case)" if m.get("pool") else "fixed pool")
+        yield "names=" + ("long (common leading / trailing part)" if m.get("kind") == "long" else "related (containment / letter case)" if m.get("pool") else "fixed pool")
+        if m.get("kind") == "long":
+            for f in long_features(case, impl):
+                yield f
         for op, st in zip(case["c"]["ops"], impl["states"]):
             changed = (st["ecus"] != prev["ecus"]) or (st["frames"] != prev["frames"])
             yield "%s:%s" % (op[0], "changed" if changed else "noop")
@@ -240,6 +312,35 @@ def features(case, impl):
             yield "has listed-but-unreferenced ECUs"
     else:
         yield "glob=%s" % impl
+
+
+def common_prefix_len(a, b):
+    n = 0
+    while n < len(a) and n < len(b) and a[n] == b[n]:
+        n += 1
+    return n
+
+
+def long_features(case, impl):
+    """what the long-name cases reached: an ECU added by update_ecu_list / a rename to a name while another present name agrees with it
+    in a leading or trailing part of at least 8 / 32 / 64 / 128 / 255 characters"""
+    prev = case["c"]["m"]
+    for op, st in zip(case["c"]["ops"], impl["states"]):
+        new = []
+        if op[0] == "update":
+            new = [(e, "update adds an ECU") for e in st["ecus"] if e not in prev["ecus"]]
+        elif op[0] == "rename" and op[1] in prev["ecus"]:
+            new = [(op[2], "rename of a listed ECU to a name")]
+        for e, what in new:
+            others = [x for x in st["ecus"] if x != e]
+            lead = max([common_prefix_len(e, x) for x in others] or [0])
+            trail = max([common_prefix_len(e[::-1], x[::-1]) for x in others] or [0])
+            for lim in (8, 32, 64, 128, 255):
+                if lead >= lim:
+                    yield "%s that shares its first >=%d characters with another listed ECU" % (what, lim)
+                if trail >= lim:
+                    yield "%s that shares its last >=%d characters with another listed ECU" % (what, lim)
+        prev = st
 
 
 def nontrivial(case, impl):
